@@ -92,8 +92,9 @@ fn matches(t: &TxLogEntry, q: &RetrieveTxQueryArgs) -> Tri {
 		r = and(
 			r,
 			match t.tx_type {
-				TxLogEntryType::TxSent => Tri::Yes,
-				TxLogEntryType::TxSentCancelled => Tri::Either,
+				// a cancelled send is still a send: cancellation has its own criterion
+				// (exclude_cancelled), and "criteria that are omitted do not filter"
+				TxLogEntryType::TxSent | TxLogEntryType::TxSentCancelled => Tri::Yes,
 				_ => Tri::No,
 			},
 		);
@@ -102,8 +103,9 @@ fn matches(t: &TxLogEntry, q: &RetrieveTxQueryArgs) -> Tri {
 		r = and(
 			r,
 			match t.tx_type {
-				TxLogEntryType::TxReceived => Tri::Yes,
-				TxLogEntryType::TxReceivedCancelled | TxLogEntryType::TxReverted => Tri::Either,
+				// likewise a cancelled receive is still a receive (seeded change C19-d)
+				TxLogEntryType::TxReceived | TxLogEntryType::TxReceivedCancelled => Tri::Yes,
+				TxLogEntryType::TxReverted => Tri::Either,
 				_ => Tri::No,
 			},
 		);
@@ -212,6 +214,22 @@ impl C19 {
 			})
 			.cloned()
 			.collect();
+		// a direction-only query aimed at a cancelled entry: "sent only" / "received only"
+		// must keep it unless exclude_cancelled is supplied (seeded change C19-d)
+		let cancelled: Vec<&TxLogEntry> = special.iter().filter(|t| is_cancelled(t)).collect();
+		if !cancelled.is_empty() && r.chance(1, 4) {
+			let t = cancelled[r.idx(cancelled.len())];
+			let mut q = json!({});
+			let f = if t.tx_type == TxLogEntryType::TxSentCancelled { "include_sent_only" } else { "include_received_only" };
+			q[f] = json!(true);
+			match r.below(4) {
+				0 => q["exclude_cancelled"] = json!(false),
+				1 => q["min_id"] = json!(t.id),
+				2 => q["max_id"] = json!(t.id),
+				_ => {}
+			}
+			return q;
+		}
 		let pick_entry = |r: &mut crate::rng::SimRng| -> Option<TxLogEntry> {
 			if txs.is_empty() {
 				None
@@ -601,6 +619,11 @@ impl Prop for C19 {
 				}
 				if mine.iter().any(|t| t.tx_type == TxLogEntryType::TxSentCancelled) {
 					run.cov.probe("query_over_log_with_cancelled_sent_entry");
+				}
+				if q.include_received_only == Some(true)
+					&& mine.iter().any(|t| t.tx_type == TxLogEntryType::TxReceivedCancelled)
+				{
+					run.cov.probe("received_only_query_over_log_with_cancelled_received_entry");
 				}
 				// forbidden entries
 				for id in &got_ids {
